@@ -234,7 +234,10 @@ class WebSocketCodec(BaseComponent):
         if self._sock is not None and args and (args[0] != self._sock):
             return
         if not self._close_sent:
-            self._write(b'\x88\x00')
+            # (masked like every frame a client sends)
+            frame = bytearray(b'\x88')
+            frame += self._encode_tail(b'', self._sock is None)
+            self._write(frame)
             self._close_sent = True
         if self._close_received and self._close_sent:
             if self._sock:
